@@ -15,6 +15,10 @@
  */
 #define ZSTD_STATIC_LINKING_ONLY
 #define ZDICT_STATIC_LINKING_ONLY
+/* the two translation units whose statics the unit-level scenarios call directly (ZSTDMT_resize, struct fields);
+   they are excluded from the library this harness links against, so every scenario runs this copy of the current source */
+#include "compress/zstdmt_compress.c"
+#include "common/pool.c"
 #include "zstd.h"
 #include "zstd_errors.h"
 #include "zdict.h"
@@ -58,6 +62,12 @@ static void beg(const char* name, long a, long b) {
     pthread_mutex_lock(&g_mu);
     { char tmp[96]; if (a < 0) snprintf(tmp, sizeof tmp, "[%s", name); else if (b < 0) snprintf(tmp, sizeof tmp, "[%s:%ld", name, a); else snprintf(tmp, sizeof tmp, "[%s:%ld:%ld", name, a, b);
       { size_t i; for (i = 0; tmp[i]; i++) if (tmp[i] == '%') tmp[i] = '_'; } ev(tmp, 0, 0); }
+    pthread_mutex_unlock(&g_mu);
+}
+static void begn(const char* name, int n, const long* ps) {
+    pthread_mutex_lock(&g_mu);
+    { char tmp[160]; int i, l = snprintf(tmp, sizeof tmp, "[%s", name); for (i = 0; i < n && l < 140; i++) l += snprintf(tmp + l, sizeof tmp - (size_t)l, ":%ld", ps[i]);
+      { size_t j; for (j = 0; tmp[j]; j++) if (tmp[j] == '%') tmp[j] = '_'; } ev(tmp, 0, 0); }
     pthread_mutex_unlock(&g_mu);
 }
 static void endc(const char* res) {
@@ -508,6 +518,33 @@ static void sc_mtctx(int v) {
     mark("ZSTDMT_free"); beg("ZSTDMT_free", -1, -1); ZSTDMT_freeCCtx(m); endc("");
 }
 
+/* ZSTDMT_resize called directly on a context created directly: the state the function finds (thread capacity, jobs-table
+   capacity, pool capacities) goes into the call bracket; a failed resize leaves NULL tables / pools that the retry must
+   re-create */
+static void sc_mtresize(int v) {
+    static const unsigned seq0[] = { 1, 3, 2, 6, 1, 0 }, seq1[] = { 4, 9, 2, 12, 0 }, seq2[] = { 2, 2, 5, 5, 3, 0 };
+    const unsigned* seq = v == 0 ? seq0 : (v == 1 ? seq1 : seq2);
+    ZSTDMT_CCtx* m = NULL; int t, i;
+    mark("ZSTDMT_create");
+    for (t = 0; t < MAXTRY && !m; t++) { int nf0 = g_nfailed; beg("ZSTDMT_create", (long)seq[0], -1); m = ZSTDMT_createCCtx_advanced(seq[0], g_cmem, NULL); judge("ZSTDMT_create", m == NULL, 0, nf0, t); }
+    if (!m) { violation("create-keeps-failing", "ZSTDMT_create"); return; }
+    for (i = 1; seq[i]; i++) {
+        mark("ZSTDMT_resize");
+        for (t = 0; t < MAXTRY; t++) {
+            int nf0 = g_nfailed; size_t r; long ps[6];
+            ps[0] = m->factory ? (long)m->factory->threadCapacity : 0; ps[1] = m->jobs ? (long)m->jobIDMask + 1 : 0;
+            ps[2] = m->bufPool ? (long)m->bufPool->totalBuffers : 0; ps[3] = m->cctxPool ? (long)m->cctxPool->totalCCtx : 0;
+            ps[4] = m->seqPool ? (long)m->seqPool->totalBuffers : 0; ps[5] = (long)seq[i];
+            begn("ZSTDMT_resize", 6, ps);
+            r = ZSTDMT_resize(m, seq[i]);
+            judge("ZSTDMT_resize", ZSTD_isError(r), ZSTD_isError(r) ? r : 0, nf0, t);
+            if (!ZSTD_isError(r)) break;
+        }
+        if (t == MAXTRY) violation("not-reusable-after-reset", "ZSTDMT_resize");
+    }
+    mark("ZSTDMT_free"); beg("ZSTDMT_free", -1, -1); ZSTDMT_freeCCtx(m); endc("");
+}
+
 static void sc_dctx(int v) {
     ZSTD_DCtx* d; static char out[400000]; (void)v;
     mark("create"); d = mk_dctx(); if (!d) return;
@@ -654,6 +691,7 @@ static const scen_t g_scen[] = {
     { "mt_rsync", sc_mt, 4, 1 }, { "mt_resize", sc_mt, 5, 0 }, { "mt_resize_back", sc_mt, 6, 0 }, { "mt_resize_stream", sc_mt, 7, 1 },
     { "unit_pool_1_0", sc_pool, 0, 0 }, { "unit_pool_3_0", sc_pool, 1, 0 }, { "unit_pool_1_4", sc_pool, 2, 0 }, { "unit_pool_3_4", sc_pool, 3, 0 },
     { "unit_pool_3_4_up", sc_pool, 7, 0 },
+    { "unit_mtresize_a", sc_mtresize, 0, 0 }, { "unit_mtresize_b", sc_mtresize, 1, 0 }, { "unit_mtresize_c", sc_mtresize, 2, 0 },
     { "unit_mtctx_1", sc_mtctx, 0, 0 }, { "unit_mtctx_2", sc_mtctx, 1, 0 }, { "unit_mtctx_4", sc_mtctx, 3, 0 }, { "unit_mtctx_9", sc_mtctx, 8, 0 },
     { "dctx_oneshot", sc_dctx, 0, 0 },
     { "dstream_grow", sc_dstream, 0, 0 }, { "dstream_grow_small_io", sc_dstream, 1, 0 }, { "dstream_shrink", sc_dstream, 2, 0 },
